@@ -73,6 +73,11 @@ type sim struct {
 	fellBack map[string]bool
 	maxAmt   uint64
 	ghostRH  []byte // receipt hash the ghost committee answers with (hash of the root's locked batch for the ghost)
+	// certificates that fail late: the poisoned certificate of this block, its clean twin for the next block
+	poisonTx   []byte
+	twin       *lib.CertificateResult
+	twinTx     []byte
+	lateFailed bool
 }
 
 func (s *sim) note(format string, a ...any) {
@@ -348,6 +353,9 @@ func (s *sim) genBookNested() [][]byte {
 
 // ghostBookCert writes the order instructions of committee 3 by hand.
 func (s *sim) ghostBookCert() []byte {
+	if s.twin != nil {
+		return s.ghostSend(nil) // the clean twin of the poisoned certificate of the previous block
+	}
 	r := s.rng
 	m := s.rootSt.Orders[ghostID]
 	ids := make([]string, 0, len(m))
@@ -487,10 +495,7 @@ func (s *sim) ghostBookCert() []byte {
 	if len(ord.LockOrders)+len(ord.ResetOrders)+len(ord.CloseOrders) == 0 {
 		return nil
 	}
-	tx, err := s.e.GhostCert(&lib.CertificateResult{Orders: ord}, s.e.RootNode().Height()-1, nil)
-	if err != nil {
-		s.t.Fatalf("%s: ghost certificate: %v", s.name, err)
-	}
+	tx := s.ghostSend(&lib.CertificateResult{Orders: ord})
 	s.run.Count("harness_certificates_with_order_instructions", 1)
 	s.run.Count("conflicting_instructions_in_one_certificate", int64(conflicts))
 	s.run.Count("duplicate_instructions_in_one_certificate", int64(dups))
@@ -570,6 +575,9 @@ func (s *sim) genDex(self uint64, st *c20util.State, counters []uint64, h uint64
 // ghostDexCert answers for committee 3 with a hand-written batch: receipts for the root's locked batch (any values),
 // plus orders / withdrawals / deposits of any size.
 func (s *sim) ghostDexCert() []byte {
+	if s.twin != nil {
+		return s.ghostSend(nil) // the clean twin of the poisoned certificate of the previous block
+	}
 	r := s.rng
 	st := s.rootSt
 	liq := st.PoolAmount(ghostID + fsm.LiquidityPoolAddend)
@@ -693,13 +701,109 @@ func (s *sim) ghostDexCert() []byte {
 		b = &lib.DexBatch{Committee: rootID, PoolSize: b.PoolSize} // an empty batch: only lets the root rotate
 		desc = append(desc, "empty-batch")
 	}
-	tx, err := s.e.GhostCert(&lib.CertificateResult{DexBatch: b}, s.e.RootNode().Height()-1, nil)
-	if err != nil {
-		s.t.Fatalf("%s: ghost certificate: %v", s.name, err)
-	}
+	tx := s.ghostSend(&lib.CertificateResult{DexBatch: b})
 	s.run.Count("harness_certificates_with_dex_batch", 1)
 	s.note("root h%d ghost-dex-batch pool=%d receipts=%v orders=%d withdrawals=%d deposits=%d %v", s.e.RootNode().Height(), b.PoolSize, b.Receipts, len(b.Orders), len(b.Withdrawals), len(b.Deposits), desc)
 	return tx
+}
+
+// ghostSend signs a certificate of committee 3. Every fourth one is poisoned: besides its instructions it names a double
+// signer that HandleByzantine refuses (an undecodable key, or the same height twice for one validator). The state machine
+// reaches that point only AFTER it executed the dex batch and the order instructions (events emitted, escrow moved), so
+// the transaction fails late and must leave nothing behind. The same certificate without the poison (the clean twin) is
+// sent in the next block: what it does is what the poisoned one had done before it failed.
+func (s *sim) ghostSend(res *lib.CertificateResult) []byte {
+	poisoned, twin := false, false
+	switch {
+	case s.twin != nil:
+		res, s.twin, twin = s.twin, nil, true
+	case s.e.RootNode().Height() > 3 && s.rng.Intn(4) == 0:
+		bz, _ := lib.Marshal(res)
+		clean := new(lib.CertificateResult)
+		_ = lib.Unmarshal(bz, clean)
+		s.twin, poisoned = clean, true
+		ds := &lib.DoubleSigner{Id: []byte("not-a-key"), Heights: []uint64{1}}
+		if s.rng.Intn(3) == 0 {
+			h := s.e.RootNode().Height() - 1
+			ds = &lib.DoubleSigner{Id: s.e.Vals[1].PublicKey().Bytes(), Heights: []uint64{h, h}}
+		}
+		res.SlashRecipients = &lib.SlashRecipients{DoubleSigners: []*lib.DoubleSigner{ds}}
+	}
+	tx, err := s.e.GhostCert(res, s.e.RootNode().Height()-1, nil)
+	if err != nil {
+		s.t.Fatalf("%s: ghost certificate: %v", s.name, err)
+	}
+	if poisoned {
+		s.poisonTx = tx
+		s.run.Count("certificates_poisoned_to_fail_late", 1)
+		d := res.SlashRecipients.DoubleSigners[0]
+		s.note("root h%d this ghost certificate is poisoned: double signer %x heights %v", s.e.RootNode().Height(), d.Id[:4], d.Heights)
+	}
+	if twin {
+		s.twinTx = tx
+		s.note("root h%d this ghost certificate is the clean twin of the poisoned one", s.e.RootNode().Height())
+	}
+	return tx
+}
+
+// afterRoot looks at what became of the poisoned certificate / the clean twin of the block just committed.
+func (s *sim) afterRoot(in *c20util.BlockInput) {
+	includes := func(tx []byte) bool {
+		h := crypto.HashString(tx)
+		for _, tr := range in.Result.Transactions {
+			if tr.TxHash == h {
+				return true
+			}
+		}
+		return false
+	}
+	if tx := s.poisonTx; tx != nil {
+		s.poisonTx, s.lateFailed = nil, false
+		switch msg, failed := c20util.FailureOf(s.e.RootNode(), tx); {
+		case includes(tx):
+			s.run.Count("poisoned_certificates_included", 1)
+			s.note("root h%d the poisoned certificate was INCLUDED", in.Height)
+		case failed && (strings.Contains(msg, "publicKeyFromBytes") || strings.Contains(msg, "double signer is invalid")):
+			// refused by the double-signer handling: dex batch, order instructions and checkpoint had been executed before
+			s.lateFailed = true
+			s.run.Count("certificates_failing_late", 1)
+			s.note("root h%d the poisoned certificate failed late: %s", in.Height, strings.ReplaceAll(msg, "\n", " "))
+		default:
+			s.run.Count("poisoned_certificates_failing_early", 1)
+			s.note("root h%d the poisoned certificate failed before the double-signer handling: %s", in.Height, strings.ReplaceAll(msg, "\n", " "))
+		}
+		return
+	}
+	if tx := s.twinTx; tx != nil {
+		s.twinTx = nil
+		late := s.lateFailed
+		s.lateFailed = false
+		if !late || !includes(tx) {
+			return
+		}
+		s.run.Count("late_failures_whose_clean_twin_succeeded", 1)
+		events := 0
+		for _, ev := range in.Result.Events {
+			if ev.ChainId != ghostID {
+				continue
+			}
+			switch ev.Msg.(type) {
+			case *lib.Event_DexSwap, *lib.Event_DexLiquidityDeposit, *lib.Event_DexLiquidityWithdrawal, *lib.Event_OrderBookSwap, *lib.Event_OrderBookLock, *lib.Event_OrderBookReset:
+				events++
+			}
+		}
+		if events > 0 {
+			s.run.Count("late_failures_that_had_emitted_events", 1)
+			s.run.Count("events_a_late_failure_had_emitted", int64(events))
+		}
+		moved := false
+		for _, id := range []uint64{ghostID + fsm.EscrowPoolAddend, ghostID + fsm.HoldingPoolAddend, ghostID + fsm.LiquidityPoolAddend} {
+			moved = moved || in.Prev.PoolAmount(id) != in.Cur.PoolAmount(id)
+		}
+		if moved {
+			s.run.Count("late_failures_that_had_moved_escrow_or_pools", 1)
+		}
+	}
 }
 
 // ---------------------------------------------------------------------------------------------------------------------
@@ -762,6 +866,7 @@ func (s *sim) stepRoot(txs [][]byte) bool {
 	s.note("root h%d committed txs=%d/%d", h, len(rec.Result.Transactions), len(txs))
 	s.run.Count("transactions_included", int64(len(rec.Result.Transactions)))
 	s.run.Count("transactions_refused", int64(len(txs)-len(rec.Result.Transactions)))
+	s.afterRoot(in)
 	ok := s.judge("root", in)
 	s.rootSt = cur
 	return ok
@@ -820,6 +925,14 @@ func (s *sim) judge(chain string, in *c20util.BlockInput) bool {
 	s.run.Count("blocks_checked", 1)
 	s.run.Eval(1)
 	probs = append(probs, rep.Problems...)
+	// what the proposer built (failing transactions executed and dropped) against what validation of the block gives
+	if pv := s.e.ProposerView; pv != nil {
+		probs = append(probs, c20util.CompareProposerView(pv, in.Result)...)
+		s.run.Count("proposer_results_compared", 1)
+	}
+	bp, nEv := c20util.BookEvents(in)
+	probs = append(probs, bp...)
+	s.run.Count("order_book_events_checked", int64(nEv))
 	// sell-order life cycles
 	for _, op := range rep.Ops {
 		id := fmt.Sprintf("%d/%x", op.Chain, op.ID)
@@ -1132,7 +1245,7 @@ func runCase(t *testing.T, run *core.Run, name string, idx int) {
 			}
 			if kind == "book" {
 				txs = append(txs, s.genBookRoot()...)
-				if rh > 2 && rng.Intn(2) == 0 {
+				if rh > 2 && (rng.Intn(2) == 0 || s.twin != nil) {
 					if tx := s.ghostBookCert(); tx != nil {
 						txs = append(txs, tx)
 					}
@@ -1142,7 +1255,7 @@ func runCase(t *testing.T, run *core.Run, name string, idx int) {
 				}
 			} else {
 				txs = append(txs, s.genDex(rootID, s.rootSt, []uint64{nestedID, nestedID, ghostID}, rh)...)
-				if rh > 2 && rng.Intn(2) == 0 {
+				if rh > 2 && (rng.Intn(2) == 0 || s.twin != nil) {
 					txs = append(txs, s.ghostDexCert())
 				}
 				if rng.Intn(5) == 0 {
